@@ -488,10 +488,11 @@ SITES = {
     "internal/shoot/generatorbase.go:151": "DFileNotExists", "internal/shoot/generatorbase.go:219": "DLoadError",
     "internal/shoot/generatorbase.go:224": "DNoPackage", "internal/shoot/generatorbase.go:272": "DMultiPkg",
     "internal/shoot/generatorbase.go:286": "DMultiPkg", "internal/shoot/generatorbase.go:324": "DNotInFile",
+    "internal/shoot/generatorbase.go:255": "panic site PTestFileNoPos (open finding K_testfile_no_package_clause), not an exit call",
     "internal/shoot/generatorbase.go:338": "unreachable: LoadPackage sets the package or is fatal",
-    "internal/shoot/generatorbase.go:375": "DMergeSources: oracle i_merge_ok; only the opaque stream can reach it",
-    "internal/shoot/generatorbase.go:394": "DExecTemplate: oracle i_render; only the uncertain/opaque streams can reach it",
-    "internal/shoot/generatorbase.go:407": "DFormatSource",
+    "internal/shoot/generatorbase.go:378": "DMergeSources: oracle i_merge_ok; only the opaque stream can reach it",
+    "internal/shoot/generatorbase.go:397": "DExecTemplate: oracle i_render; only the uncertain/opaque streams can reach it",
+    "internal/shoot/generatorbase.go:410": "DFormatSource",
     "internal/shoot/source.go:113": "unreachable: all sources of one run carry the same package name",
     "internal/constructor/generator.go:91": "DNewNotExists", "internal/constructor/generator.go:132": "DNewNotStruct",
     "internal/constructor/fields.go:194": "DNewExportedGetSet",
